@@ -26,6 +26,7 @@ type connEntry struct {
 	conn sb.Conn
 	cc   *grpc.ClientConn
 	id   *string
+	dev  *Device
 }
 
 // Conns is one incarnation's connection manager.
@@ -61,11 +62,19 @@ func (c *Conns) Up(d *Device) sb.Conn {
 	*id = string(conn.ID())
 	c.k.Name("conn", *id)
 	c.mu.Lock()
-	e := &connEntry{conn: conn, cc: cc, id: id}
+	e := &connEntry{conn: conn, cc: cc, id: id, dev: d}
 	c.all = append(c.all, cc)
-	if old, ok := c.byTgt[conn.TargetID()]; ok {
+	old, replaced := c.byTgt[conn.TargetID()]
+	if d.Shared {
+		// the channel is ready (again); a replacement is a flap of the one channel: RPCs in flight fail, the old Conn
+		// object leaves the manager but keeps working for whoever still holds it
+		d.LinkUp(replaced)
+	}
+	if replaced {
 		delete(c.conns, old.conn.ID())
-		_ = old.cc.Close()
+		if !d.Shared {
+			_ = old.cc.Close()
+		}
 		for _, w := range c.ws {
 			if !w.dead {
 				w.fifo = append(w.fifo, old.conn)
@@ -98,7 +107,11 @@ func (c *Conns) Down(target string) bool {
 	}
 	c.mu.Unlock()
 	if ok {
-		_ = e.cc.Close()
+		if e.dev != nil && e.dev.Shared {
+			e.dev.LinkDown()
+		} else {
+			_ = e.cc.Close()
+		}
 	}
 	return ok
 }
